@@ -348,7 +348,7 @@ Definition kind_ok (op : N) (fs : fsres) : bool :=
 
 (* what the filesystem's answer must satisfy for the reply to be expressible:
    read data and directory records fit the reply buffer, names fit the 32-bit namelen field *)
-Definition fits (q : wfreq) (cap : N) (fs : fsres) : Prop :=
+Definition reply_fits (q : wfreq) (cap : N) (fs : fsres) : Prop :=
   match fs with
   | FRead d => 16 + blen d <= cap
   | FDirents ds =>
@@ -373,7 +373,7 @@ Ltac opfalse Hk := rewrite Hk; reflexivity.
 
 Theorem post_action_roundtrip q minor cap fs a :
   q_unique q < 2 ^ 64 -> cap < 2 ^ 32 ->
-  kind_ok (q_op q) fs = true -> fits q cap fs ->
+  kind_ok (q_op q) fs = true -> reply_fits q cap fs ->
   post_action (q_op q) minor cap (fld q "size") fs = Some a -> action_len a <= cap ->
   exists p, action_msg (q_unique q) a = Some p /\ reply_ok q minor fs p = true.
 Proof.
@@ -413,7 +413,7 @@ Proof.
     enum_op Hkind k Hin Hk; post_eval Hk Hpost; apply some_inj in Hpost; subst a;
       (eexists; split; [reflexivity|apply rt_create; exact Hu]).
   - (* FRead *)
-    enum_op Hkind k Hin Hk; post_eval Hk Hpost. cbn [fits] in Hfits.
+    enum_op Hkind k Hin Hk; post_eval Hk Hpost. cbn [reply_fits] in Hfits.
     destruct (N.ltb_spec (cap - OUT_HDR) (blen d)) as [Hlt|_]; [unfold OUT_HDR in Hlt; lia|].
     apply some_inj in Hpost; subst a. eexists; split; [reflexivity|apply rt_read; [exact Hu|lia]].
   - (* FStatfs *)
@@ -423,7 +423,7 @@ Proof.
     enum_op Hkind k Hin Hk; post_eval Hk Hpost; apply some_inj in Hpost; subst a;
       (eexists; split; [reflexivity|apply rt_lock; exact Hu]).
   - (* FDirents *)
-    cbn [fits] in Hfits. destruct Hfits as [Hn Hf].
+    cbn [reply_fits] in Hfits. destruct Hfits as [Hn Hf].
     enum_op Hkind k Hin Hk; post_eval Hk Hpost; cbv zeta in Hpost; rewrite Hk in Hf; cbn [N.eqb Pos.eqb] in Hf.
     + destruct (N.ltb_spec (cap - OUT_HDR) (blen (fill_dirents ds false (fld q "size") []))) as [Hlt|_];
         [unfold OUT_HDR in Hlt; lia|].
@@ -455,7 +455,7 @@ Qed.
 Theorem handler_roundtrip cfg h ctx r cap q fs :
   q_unique q < 2 ^ 64 -> cap < 2 ^ 32 ->
   h_opcode h = q_op q -> u32 16 r = fld q "size" ->
-  kind_ok (q_op q) fs = true -> fits q cap fs ->
+  kind_ok (q_op q) fs = true -> reply_fits q cap fs ->
   fst (handler cfg h ctx r fs cap) <> [] ->
   action_len (snd (handler cfg h ctx r fs cap)) <= cap ->
   exists p, o_packets (perform FuseDev cap (q_unique q) (snd (handler cfg h ctx r fs cap))) = [p] /\
@@ -561,7 +561,7 @@ Qed.
 Theorem handler_roundtrip_virtio cfg h ctx r cap q fs :
   q_unique q < 2 ^ 64 -> cap < 2 ^ 32 ->
   h_opcode h = q_op q -> u32 16 r = fld q "size" ->
-  kind_ok (q_op q) fs = true -> fits q cap fs ->
+  kind_ok (q_op q) fs = true -> reply_fits q cap fs ->
   fst (handler cfg h ctx r fs cap) <> [] ->
   action_len (snd (handler cfg h ctx r fs cap)) <= cap ->
   reply_ok q (cfg_minor cfg) fs
@@ -633,7 +633,7 @@ Proof. unfold u32. rewrite skipn_skipn_add. reflexivity. Qed.
 Theorem handle_roundtrip cfg cap req q fs :
   q_unique q < 2 ^ 64 -> cap < 2 ^ 32 ->
   u32 4 req = q_op q -> u64 8 req = q_unique q -> u32 56 req = fld q "size" ->
-  kind_ok (q_op q) fs = true -> fits q cap fs ->
+  kind_ok (q_op q) fs = true -> reply_fits q cap fs ->
   (2 <= List.length (h_calls (handle cfg FuseDev cap req fs)))%nat ->
   action_len (snd (fst (decide cfg req fs cap))) <= cap ->
   exists p, o_packets (h_outcome (handle cfg FuseDev cap req fs)) = [p] /\
@@ -654,7 +654,7 @@ Qed.
 Theorem handle_roundtrip_virtio cfg cap req q fs :
   q_unique q < 2 ^ 64 -> cap < 2 ^ 32 ->
   u32 4 req = q_op q -> u64 8 req = q_unique q -> u32 56 req = fld q "size" ->
-  kind_ok (q_op q) fs = true -> fits q cap fs ->
+  kind_ok (q_op q) fs = true -> reply_fits q cap fs ->
   (2 <= List.length (h_calls (handle cfg Virtio cap req fs)))%nat ->
   action_len (snd (fst (decide cfg req fs cap))) <= cap ->
   reply_ok q (cfg_minor cfg) fs (o_mem (h_outcome (handle cfg Virtio cap req fs))) = true.
